@@ -763,7 +763,11 @@ func (in *c15Inst) settle(op explore.Op) *explore.Fail {
 		}
 		in.tag("completes %s", c15ClassName[s.class])
 	}
-	for id := range expect {
+	for _, s := range in.sortedStrs() {
+		id := s.id
+		if !expect[id] {
+			continue
+		}
 		class, _ := in.classOf(id)
 		return explore.Failf("completion-missing:"+c15ClassName[class], "stream %d is fully complete after %v but was not deleted from the streams map", id, op)
 	}
